@@ -2,11 +2,12 @@
 from __future__ import annotations
 
 import ast
+import re
 
 from sa import flow
 from sa.model import AnalysisError, dotted, unparse
 from sa.rules import LEVEL_TEXT, rule
-from sa.rules.util import callee, closure_text, is_self_attr, iter_body_nodes
+from sa.rules.util import callee, closure_text, is_self_attr, iter_body_nodes, pmatch
 
 LEVEL_TEXT["C18"] = (
     "Decides structural necessary conditions of C18: reader filters only for null-safe operators and fully translated "
@@ -317,3 +318,71 @@ def r18e(ctx):
         else:
             ctx.bad(cid, k.module.loc(mem.node), f"{k.qual} absorbs a filter whatever `_partitions` holds: the filter prunes the fragment list the selected numbers index, so a partition selection followed by a filter on a hive-partition column reads another directory (or indexes past the pruned list)")
     ctx.floor("reader filter pass-through tests", n, 1)
+
+
+@rule(
+    "R18f",
+    ["C18", "C03"],
+    """THE OR-OF-ANDS SHAPE OF USER FILTERS REACHES THE READER INTACT: `filters=[[("a", ">", 1)], [("b", "<", 0)]]` means (a > 1) OR (b < 0); the
+    flat form `[(..), (..)]` means AND. The API layer may LOOK at the individual predicates (`flatten(filters, container=list)` to
+    validate operators) but must hand on the structure it was given: in `read_parquet` the parameter `filters` is never rebound to a
+    value computed by `flatten(...)` / `chain(...)` / a comprehension over itself. Rebinding it to the flattened list turns every OR
+    into an AND and the reader drops rows.""",
+)
+def r18f(ctx):
+    model = ctx.model
+    mod, fn = model.func("_collection", "read_parquet")
+    if "filters" not in [a.arg for a in fn.args.args + fn.args.kwonlyargs]:
+        raise AnalysisError("anchor vanished: the `filters` parameter of read_parquet")
+    looks = [x for x in ast.walk(fn) if isinstance(x, ast.Call) and dotted(x.func) == "flatten" and x.args and ast.unparse(x.args[0]) == "filters"]
+    rebinds = []
+    for st in ast.walk(fn):
+        tgts = []
+        if isinstance(st, ast.Assign):
+            tgts = [t for t in st.targets if isinstance(t, ast.Name)]
+            val = st.value
+        elif isinstance(st, ast.AugAssign) and isinstance(st.target, ast.Name):
+            tgts, val = [st.target], st.value
+        else:
+            continue
+        if any(t.id == "filters" for t in tgts) and any(isinstance(x, ast.Name) and x.id == "filters" for x in ast.walk(val)) and re.search(r"\bflatten\(|\bchain\(|\bsum\(| for ", ast.unparse(val)):
+            rebinds.append(st)
+    cid = "_collection.read_parquet:filters-structure"
+    if rebinds:
+        ctx.bad(cid, mod.loc(rebinds[0]), f"`{unparse(rebinds[0])}` replaces the user's filters by a flattened copy before they are handed to the reader: the nesting IS the meaning (outer list = OR, inner lists = AND), so [[A], [B]] (A or B) becomes [A, B] (A and B) and rows are dropped")
+    else:
+        ctx.ok(cid, mod.loc(fn), f"filters are inspected ({len(looks)} flatten look-ups) but handed on as given")
+
+
+@rule(
+    "R18g",
+    ["C18", "C03"],
+    """A FLAT FILTER LIST IS ONE CONJUNCTION: `_DNF.normalize` accepts the two documented spellings - `[[..], [..]]` (OR of ANDs) and the
+    flat `[(..), (..)]`, which means AND. The flat form must be wrapped WHOLE into a single conjunction (`[filters]` on the branch where
+    `filters[0]` is not a list); wrapping its elements one by one makes every predicate a disjunct of its own and the reader returns
+    rows that fail all but one of them.""",
+)
+def r18g(ctx):
+    model = ctx.model
+    c = model.cls("_DNF", "io.parquet")
+    fn = model.method(c, "normalize", own=True).node
+    fparam = fn.args.args[1].arg
+    cid = "io.parquet._DNF.normalize:flat-list-is-one-conjunction"
+    tests = [x for x in ast.walk(fn) if isinstance(x, ast.Call) and pmatch(f"isinstance({fparam}[0], list)", x) is not None]
+    if not tests:
+        ctx.bad(cid, c.module.loc(fn), f"`isinstance({fparam}[0], list)` - the test that tells the nested OR-of-ANDs spelling from the flat AND spelling - is gone: both spellings now take one path, so one of them changes meaning")
+        return
+    whole = False
+    for t in tests:
+        par = getattr(t, "_parent", None)
+        if isinstance(par, ast.IfExp) and par.test is t and pmatch(f"[{fparam}]", par.orelse) is not None:
+            whole = True
+        if isinstance(par, ast.UnaryOp) and isinstance(getattr(par, "_parent", None), ast.IfExp) and pmatch(f"[{fparam}]", par._parent.body) is not None:
+            whole = True
+    for st in flow.walk(fn):
+        if isinstance(st.stmt, ast.Assign) and pmatch(f"[{fparam}]", st.stmt.value) is not None and any((not pol) and pmatch(f"isinstance({fparam}[0], list)", t_) is not None for t_, pol in flow.facts(st)):
+            whole = True
+    if whole:
+        ctx.ok(cid, c.module.loc(fn), "the flat spelling becomes a single conjunction")
+    else:
+        ctx.bad(cid, c.module.loc(tests[0]), f"on the branch where `{fparam}[0]` is not a list the filters are not wrapped whole (`[{fparam}]`) into one conjunction: a flat list [(a, '>', 1), (b, '<', 0)] - documented as a AND b - is read as a OR b")
